@@ -18,10 +18,22 @@ default_env parse_args, APP_CONFIG, exit_on_error=True variants, foreign keys wh
 the parser, and None / dict foreign values).  Each case builds a fresh parser.  `parse_known_args` called from
 outside must raise NotImplementedError.
 
+Foreign key NAMES: `zzq` (defined nowhere) and, per node, the spelling neighbours of a key the node defines - a
+"truncated" name (defined key minus its last letter: a proper prefix of a defined key) and an "extended" name (defined
+key plus one letter); thorough: one pair per defined key, plus names defined elsewhere in the parser.
+
+Used-parser family (operation histories): for every (shape, base configuration, prior call) ONE parser; before every
+judged case the prior call is made on that parser (values on argv, then a --config document that fails while it is
+applied; the same with a valid document = a complete successful parse; thorough also a failing parse_string), so each
+judged case (the base, every required key removed / nulled, the foreign key at every node; channels string, object,
+argv, environment) runs on a parser / thread that has just performed the prior call and before it every earlier case
+of the sequence.  Oracle as on a fresh parser; reported only when a fresh parser judges the same input correctly.
+Every from-scratch case runs in an empty contextvars.Context, so state left behind by one case cannot reach another.
+
 The expected keys (which keys a node defines, which are required) come from the shape declaration and from
 `inspect` / `dataclasses` / `typing` on the fixture classes - never from jsonargparse.
 
-A case is {"shape", "cfg" (valid base), "mut", "ch"}; everything else is derived.
+A case is {"shape", "cfg" (valid base), "mut", "ch"[, "prior"[, "history"]]}; everything else is derived.
 """
 from __future__ import annotations
 
@@ -35,9 +47,11 @@ META = {
     "level": "exploration",
     "engine": "bounded exhaustive single-position mutation of valid configurations on real parsers "
     "(mc/checks/c06.py, c06_schema.py, c06_channels.py)",
-    "technique": "every node of every valid configuration tree x {foreign key, required key removed, required key "
-    "nulled, leftover argv tokens} x every channel, each on a freshly built real parser, judged by an independent "
-    "schema read from the shape declaration and the fixture signatures",
+    "technique": "every node of every valid configuration tree x {foreign key (never-defined name, truncated / extended "
+    "spelling of a defined key), required key removed, required key nulled, leftover argv tokens} x every channel, each "
+    "on a freshly built real parser and - base / required / plain foreign cases - on a parser that has just performed a "
+    "failing or a complete earlier parse, judged by an independent schema read from the shape declaration and the "
+    "fixture signatures",
     "level_text": "The property quantifies over inputs x configurations. The parser shapes contain every node kind "
     "the statement names (top level, dotted group, dataclass argument, class group, class-typed argument with nested "
     "dataclass and nested class, List[class], List[dataclass], Dict[str,dataclass], Optional[dataclass], required "
@@ -45,7 +59,9 @@ META = {
     "extensions TypedDict, Optional[class], Union[dataclass,int], nested containers, ActionParser groups), "
     "alone and combined below a subcommand; for each shape every position of every base configuration is mutated "
     "and delivered through every channel, so within the stated shapes the enumeration of positions x mutations x "
-    "channels is complete, not sampled. Vacuity guards require every node kind to be hit, every base to be accepted "
+    "channels is complete, not sampled. The used-parser family repeats the base / required-key / foreign-key cases "
+    "on one parser per (base, prior call) after a prior call that fails while a config source is merged into argv "
+    "values, or succeeds completely: the statement holds for every parse, not only the first of a process. Vacuity guards require every node kind to be hit, every base to be accepted "
     "and to parse identically through all channels.",
     "level_note": "Trusted: the schema reader (inspect/dataclasses on mc/fixtures/c06/lib.py) and the channel "
     "renderers (cross-checked: every base configuration must be accepted and give the same result through every "
@@ -85,6 +101,17 @@ THOROUGH_CHANNELS = QUICK_CHANNELS + [
     "argv-flat:exit",
     "env-json:exit",
 ]
+
+# used-parser family (see used_unit): prior calls and judged channels per tier (True = quick)
+USED = {
+    True: {"priors": ["argv+config-fails", "argv+config-ok"], "channels": ["string", "object", "argv-json", "env-json"]},
+    False: {
+        "priors": ["argv+config-fails", "argv+config-ok", "string-fails"],
+        "channels": ["string", "object", "argv-json", "env-json", "config-arg", "path"],
+    },
+}
+AIO_QUICK_SKIP = ("string", "env-flat", "default-config-file", "config-arg", "object:nodefaults", "argv-json")
+USED_QUICK_SKIP = ("all-in-one", "box", "nested-containers")  # quick: the three most expensive parsers
 
 # node kinds (label@context of foreign-key positions, kind@label of required keys) that every run must hit
 REQUIRED_FOREIGN_KINDS = [
@@ -199,9 +226,9 @@ def prune_empty(c):
     return c
 
 
-def run_one(shape, cfg, mut, channel):
-    """Execute one case.  Returns dict: verdict in {"inexpressible", "ok", "deviation"}, signature, detail,
-    rendering hash, and for base cases the canonical result."""
+def run_one(shape, cfg, mut, channel, parser=None):
+    """Execute one case (on a fresh parser, or on the given used `parser`).  Returns dict: verdict in
+    {"inexpressible", "ok", "deviation"}, signature, detail, rendering hash, and for base cases the canonical result."""
     import jsonargparse
 
     from mc.checks import c06_channels as C
@@ -212,11 +239,12 @@ def run_one(shape, cfg, mut, channel):
     kind = mut[0]
     chclass = C.channel_class(channel)
     if channel == "validate":
+        assert parser is None
         o, shown = C.deliver_validate(shape, cfg, mut, mut[3] if kind == "foreign" else None, mut[4] if kind == "foreign" else None)
     else:
         mutated = S.apply_mutation(schema, cfg, mut)
         leftover = [mut[1][0], mut[3]] if kind == "leftover" else None
-        o, shown = C.deliver(shape, mutated, channel, leftover)
+        o, shown = C.deliver(shape, mutated, channel, leftover, parser=parser)
     res = {"verdict": "ok", "signature": None, "detail": "", "hash": None, "result": None, "okind": o["kind"]}
     if o["kind"] == "inexpressible":
         res["verdict"] = "inexpressible"
@@ -240,6 +268,8 @@ def run_one(shape, cfg, mut, channel):
             res["result"] = json.dumps(prune_empty(canon), sort_keys=True)
         return res
     node_kind = mut[2]
+    if kind == "foreign" and len(mut) > 5:
+        node_kind += f":{mut[5]}-name"  # spelling neighbour of a defined key: a root cause of its own
     if accepted:
         if kind == "foreign":
             what = f"foreign key {mut[3]!r} at {mut[1]} was accepted"
@@ -267,10 +297,35 @@ def run_one(shape, cfg, mut, channel):
     return res
 
 
+def run_used(shape, cfg, mut, channel, prior, history=()):
+    """One case of the used-parser family from scratch: fresh parser; for every (mutation, channel) of `history`
+    the prior call and that case; then the prior call and the judged case - all on the same parser object."""
+    from mc.checks import c06_channels as C
+    from mc.checks import c06_schema as S
+
+    parser = S.build_parser(S.SHAPES[shape])
+    for hmut, hch in history:
+        C.prior_call(parser, shape, cfg, prior)
+        run_one(shape, cfg, hmut, hch, parser=parser)
+    C.prior_call(parser, shape, cfg, prior)
+    r = run_one(shape, cfg, mut, channel, parser=parser)
+    if r["verdict"] == "deviation":
+        r["signature"] = f"used-parser:{prior}:{r['signature']}"
+        r["detail"] = (
+            f"on a parser that had performed the call {prior!r} ({C.PRIORS[prior]}) with the valid configuration"
+            + (f" and {len(history)} earlier cases" if history else "")
+            + f" (a fresh parser judges this input correctly): {r['detail']}"
+        )
+    return r
+
+
 def run_case(case):
     if case.get("special") == "parse_known_args":
         return known_args_case(case["shape"])
-    r = run_one(case["shape"], case["cfg"], case["mut"], case["ch"])
+    if case.get("prior"):
+        r = run_used(case["shape"], case["cfg"], case["mut"], case["ch"], case["prior"], case.get("history") or ())
+    else:
+        r = run_one(case["shape"], case["cfg"], case["mut"], case["ch"])
     if r["verdict"] == "deviation":
         return [{"signature": r["signature"], "detail": r["detail"]}]
     return []
@@ -303,17 +358,71 @@ def unit(arg):
     shape, cfg, mut, channels = arg
     out = {"shape": shape, "mut": mut, "rows": [], "cfg": cfg}
     for ch in channels:
-        r = run_one(shape, cfg, mut, ch)
+        r = clean_context(run_one, shape, cfg, mut, ch)
         out["rows"].append((ch, r["verdict"], r["signature"], r["detail"], r["hash"], r["result"], r["okind"]))
+    return out
+
+
+def clean_context(fn, *args):
+    """Run fn in an empty contextvars.Context: the library keeps its per-call state in context variables, a case that
+    claims to start from scratch must not inherit them from earlier cases of the same worker process (the driver
+    re-executes witnesses in fresh processes)."""
+    import contextvars
+
+    return contextvars.Context().run(fn, *args)
+
+
+def used_unit(arg, _clean=False):
+    """Worker of the used-parser family: ONE parser for (shape, base configuration, prior); for every mutation and
+    channel the prior call and then the judged case on that same parser, so every judged case sees a parser that has
+    just performed the prior call and, before it, all earlier cases of the sequence (themselves failing parses of
+    every kind).  A deviation is reported only when a fresh parser judges the same input correctly (otherwise it is
+    the fresh-parser family's finding); the witness is the shortest of [prior, case] / [whole sequence so far] that
+    reproduces from scratch."""
+    from mc.checks import c06_channels as C
+    from mc.checks import c06_schema as S
+
+    if not _clean:
+        return clean_context(used_unit, arg, True)
+    shape, cfg, prior, muts, channels = arg
+    parser = S.build_parser(S.SHAPES[shape])
+    out = {"shape": shape, "cfg": cfg, "prior": prior, "rows": [], "prior_kinds": {}}
+    history = []
+    for mut in muts:
+        for ch in channels:
+            po = C.prior_call(parser, shape, cfg, prior)
+            out["prior_kinds"][po["kind"]] = out["prior_kinds"].get(po["kind"], 0) + 1
+            r = run_one(shape, cfg, mut, ch, parser=parser)
+            row = {"mut": mut, "ch": ch, "verdict": r["verdict"], "hash": r["hash"], "okind": r["okind"]}
+            if r["verdict"] == "deviation":
+                fresh = clean_context(run_one, shape, cfg, mut, ch)
+                if fresh["verdict"] == "deviation" and fresh["signature"] == r["signature"]:
+                    row["verdict"] = "same-on-fresh-parser"
+                else:
+                    alone = clean_context(run_used, shape, cfg, mut, ch, prior)
+                    if alone["verdict"] == "deviation":
+                        row.update(signature=alone["signature"], detail=alone["detail"], history=[])
+                    else:
+                        again = clean_context(run_used, shape, cfg, mut, ch, prior, history)
+                        row.update(
+                            signature=f"used-parser:{prior}:{r['signature']}",
+                            detail=again["detail"] or r["detail"],
+                            history=list(history),
+                        )
+            out["rows"].append(row)
+            if r["verdict"] != "inexpressible":
+                history.append([mut, ch])
     return out
 
 
 def plan(ctx):
     """(base items, mutation items, bases, channels): items are (shape, cfg, mut, channels), simplest shapes first."""
+    from mc.checks import c06_channels as C
     from mc.checks import c06_schema as S
 
     channels = QUICK_CHANNELS if ctx.quick else THOROUGH_CHANNELS
-    base_items, mut_items, bases = [], [], []
+    base_items, mut_items, bases, used_items = [], [], [], []
+    used_priors, used_channels = USED[ctx.quick]["priors"], USED[ctx.quick]["channels"]
     only = [x for x in os.environ.get("C06_SHAPES", "").split(",") if x]  # development aid; reported as a cap
     for shape in S.SHAPES:
         if only and shape not in only:
@@ -322,9 +431,10 @@ def plan(ctx):
         has_subs = bool(S.SHAPES[shape]["sub"])
         chans = [c for c in channels if has_subs or c != "sub-config"]
         if ctx.quick and shape == "all-in-one":
-            # quick: the expensive parser skips three channels whose code paths (config text loader, per-leaf
-            # environment variables, default config files) are explored for every node kind in the other shapes
-            chans = [c for c in chans if c not in ("string", "env-flat", "default-config-file")]
+            # quick: the expensive parser keeps one channel per channel class plus the per-level --config (object,
+            # sub-config, validate, argv-flat, env-json); the other six channels are explored for every node kind in
+            # the single-kind shapes and below subcommands in the shape "subcommands"
+            chans = [c for c in chans if c not in AIO_QUICK_SKIP]
         for mode, variant, subpath, cfg in S.base_configs(shape):
             if ctx.quick and shape == "all-in-one" and subpath == ["go", "all"] and (mode, variant) != ("full", 1):
                 # quick: the expensive all-in-one parser gets the one of its four go/all bases that has every key
@@ -336,17 +446,42 @@ def plan(ctx):
             base_items.append((shape, cfg, ["base", [], tag], chans))
             # quick: foreign key zzq = 1 everywhere and additionally zzq = null in the cheap single-kind shapes
             values = (1,) if shape == "all-in-one" else (1, None)
-            for mut in S.mutations(schema, cfg, subpath, rich=not ctx.quick, values=values):
+            # the spelling neighbours of defined keys (truncated / extended names): quick in the single-kind shapes;
+            # thorough one pair per defined key there, and one pair per node in the fullest base of all-in-one
+            if shape == "all-in-one":
+                related = not ctx.quick and (subpath, mode, variant) == (["go", "all"], "full", 1)
+            else:
+                related = True
+            every = not ctx.quick and shape != "all-in-one"
+            muts = S.mutations(schema, cfg, subpath, rich=not ctx.quick, values=values, related=related, related_every=every)
+            for mut in muts:
                 mut_items.append((shape, cfg, mut, chans))
-    return base_items, mut_items, bases, channels
+            # used-parser family: the base, every required key removed / nulled and the plain foreign key at every node
+            if mode != "full" or (ctx.quick and shape in USED_QUICK_SKIP):
+                continue  # the keys of a required-only base are a subset of those of the full base of the same variant
+            if not C.priors_applicable(shape, cfg):
+                continue  # (no such base among the full ones; kept for new shapes)
+            plain = [["base", [], tag]] + [
+                m for m in muts if m[0] in ("remove", "null") or (m[0] == "foreign" and m[3:] == [S.FOREIGN, 1])
+            ]
+            priors, uchans = used_priors, used_channels
+            if shape == "all-in-one":  # thorough only: the expensive parser gets its fullest base, one prior, the text channels
+                if (subpath, mode, variant) != (["go", "all"], "full", 1):
+                    continue
+                priors, uchans = used_priors[:1], ["string", "object"]
+            for prior in priors:
+                used_items.append((shape, cfg, prior, plain, uchans))
+    return base_items, mut_items, bases, channels, used_items
 
 
 def explore(ctx):
     from mc.checks import c06_channels as C
     from mc.checks import c06_schema as S
 
-    base_items, mut_items, bases, channels = plan(ctx)
+    base_items, mut_items, bases, channels, used_items = plan(ctx)
     tot = {"evaluations": 0, "inexpressible": 0, "base_accept": 0, "named": 0, "required": 0, "skipped": 0}
+    used = {"cases": 0, "base_accept": 0, "named": 0, "required": 0, "same_on_fresh_parser": 0, "sequences": 0}
+    prior_outcomes, related_hit = {}, {}
     hashes, states = set(), set()
     kinds_hit, base_results, per_channel, per_shape = {}, {}, {}, {}
     base_rejected = {}  # (shape, cfg json) -> channels in which the valid base itself is rejected
@@ -369,6 +504,8 @@ def explore(ctx):
             if kind != "base":
                 hashes.add(h)
                 kinds_hit[(kind, mut[2])] = kinds_hit.get((kind, mut[2]), 0) + 1
+                if kind == "foreign" and len(mut) > 5:
+                    related_hit.setdefault(mut[5], set()).add(mut[2])
             if verdict == "deviation":
                 ctx.deviation(sig, case, detail)
                 if kind == "base":
@@ -400,6 +537,37 @@ def explore(ctx):
         todo.append((shape, cfg, mut, chans))
     for out in ctx.pmap(unit, todo):
         absorb(out)
+    # phase 3: the used-parser family
+    for out in ctx.pmap(used_unit, used_items):
+        shape, cfg, prior = out["shape"], out["cfg"], out["prior"]
+        used["sequences"] += 1
+        for k, n in out["prior_kinds"].items():
+            prior_outcomes[f"{prior}:{k}"] = prior_outcomes.get(f"{prior}:{k}", 0) + n
+        for row in out["rows"]:
+            mut, ch, verdict = row["mut"], row["ch"], row["verdict"]
+            if verdict == "inexpressible":
+                tot["inexpressible"] += 1
+                continue
+            tot["evaluations"] += 2  # the prior call and the judged call
+            used["cases"] += 1
+            per_channel["used:" + ch] = per_channel.get("used:" + ch, 0) + 1
+            per_shape[shape] = per_shape.get(shape, 0) + 1
+            states.add(hashlib.sha1(json.dumps([shape, cfg, mut, prior], sort_keys=True).encode()).hexdigest()[:16])
+            hashes.add(f"{row['hash']}:{prior}")
+            case = {"shape": shape, "cfg": cfg, "mut": mut, "ch": ch, "prior": prior}
+            if verdict == "same-on-fresh-parser":
+                used["same_on_fresh_parser"] += 1
+            elif verdict == "deviation":
+                if row["history"]:
+                    case["history"] = row["history"]
+                ctx.deviation(row["signature"], case, row["detail"])
+            elif mut[0] == "base":
+                used["base_accept"] += 1
+            else:
+                used["named" if mut[0] == "foreign" else "required"] += 1
+                if ("used", prior) not in sampled and len(json.dumps(cfg)) < 400:
+                    sampled.add(("used", prior))
+                    ctx.sample(case, limit=16)
     shapes_run = sorted({s for s, _ in bases}, key=list(S.SHAPES).index)
     for shape in shapes_run:
         tot["evaluations"] += 1
@@ -422,10 +590,11 @@ def explore(ctx):
         transitions=tot["evaluations"],
         traces_validated_against_impl=tot["evaluations"],
         distinct_nontrivial=len(hashes),
-        rule="a case = (parser shape, valid base configuration, one mutation, channel), run on a fresh parser; "
-        "states = distinct (shape, base, mutation); distinct_nontrivial = distinct (shape, channel, exact input "
-        "handed to the library) among MUTATED cases that are expressible in their channel (base cases and "
-        "inexpressible combinations are not counted)",
+        rule="a case = (parser shape, valid base configuration, one mutation, channel), run on a fresh parser, or "
+        "(..., prior call) run on a used parser (counted as two evaluations: the prior call and the judged call); "
+        "states = distinct (shape, base, mutation[, prior]); distinct_nontrivial = distinct (shape, channel, exact input "
+        "handed to the library[, prior]) among MUTATED cases that are expressible in their channel (base cases of the "
+        "fresh-parser family and inexpressible combinations are not counted)",
         exhaustive=not subset,
         caps_hit=[f"C06_SHAPES={subset}: only these shapes explored"] if subset else [],
         bounds={
@@ -439,8 +608,17 @@ def explore(ctx):
             else "names {never-defined zzq, own name of the node, a key of a child node, a parameter of a sibling "
             "class, init_args} x values {1, null, {x: 1}} (values for zzq only)",
             "list_and_dict_items": "<= 2",
+            "foreign_key_related_names": "one truncated and one extended spelling of a defined key per node (value 1); "
+            "not in all-in-one"
+            if ctx.quick
+            else "per node every defined key truncated by one letter / extended by one letter (all-in-one: one truncated "
+            "and one extended name per node, in its fullest base)",
+            "used_parser_family": "shapes "
+            + ("without " + ", ".join(USED_QUICK_SKIP) if ctx.quick else "all (all-in-one: 1 base, 1 prior, 2 channels)")
+            + "; bases with every key"
+            + "; base + required keys removed / nulled + foreign key zzq = 1 at every node; one parser per (base, prior)",
             "quick_reduction": "all-in-one/go/all explores 1 of its 4 base configurations (full:1), without the channels "
-            "string, env-flat and default-config-file"
+            + ", ".join(AIO_QUICK_SKIP)
             if ctx.quick
             else None,
         },
@@ -452,6 +630,13 @@ def explore(ctx):
         base_cases_accepted=tot["base_accept"],
         rejected_foreign_named=tot["named"],
         rejected_required=tot["required"],
+        related_name_kinds_hit={t: len(v) for t, v in sorted(related_hit.items())},
+        used_parser_family={
+            **used,
+            "priors": {p: C.PRIORS[p] for p in USED[ctx.quick]["priors"]},
+            "channels": USED[ctx.quick]["channels"],
+            "prior_outcomes": dict(sorted(prior_outcomes.items())),
+        },
     )
     ctx.assume("unknown environment variable NAMES are not configuration keys (shared environment) - not judged")
     ctx.assume("dict_kwargs, __path__ and the keys of Dict[str,.] arguments are not foreign keys")
@@ -471,6 +656,18 @@ def explore(ctx):
     known = {e.get("signature") for e in load_known("C06") if e.get("status") == "open"}
     if set(ctx.deviations) - known:
         return  # the count guards below describe a run without (new) deviations
+    related_shapes = {shape for shape, _, m, _ in mut_items if len(m) > 5}
+    expected = {m[2] for shape, _, m, _ in mut_items if m[0] == "foreign" and shape in related_shapes}
+    for tagname in ("truncated", "extended"):
+        missing = [k for k in REQUIRED_FOREIGN_KINDS if k in expected and k not in related_hit.get(tagname, ())]
+        ctx.require(not missing, f"every node kind receives a foreign key with a {tagname} name (missing: {missing})")
+    wrong = [k for k in prior_outcomes if k.split(":")[-1] != {"fails": "ArgumentError", "ok": "ok"}[C.PRIORS[k.rsplit(":", 1)[0]]]]
+    ctx.require(not wrong, f"every prior call of the used-parser family ends as its kind says (others: {wrong})")
+    ctx.require(
+        used["sequences"] == len(used_items) and used["base_accept"] >= 3 * used["sequences"],
+        "used-parser family: the base configuration is accepted through >= 3 channels on every used parser",
+    )
+    ctx.require(used["required"] > 300 and used["named"] > 300, "used-parser family: more than 300 required-key and 300 foreign-key rejections")
     ctx.require(tot["base_accept"] >= len(bases) * 5, "every base configuration accepted through >= 5 channels")
     ctx.require(tot["named"] > 1000 and tot["required"] > 500, "more than 1000 foreign-key and 500 required-key rejections")
     for cls in ("config", "argv", "env", "validate"):
